@@ -1131,10 +1131,28 @@ class C06(core.Check):
     last_real_res = None
 
     def run_impl(self, case):
-        if case.get("kind") == "bk":
-            return run_bk(case)
-        res = run_real(case)
-        self.last_real_res = res
+        res = self.execute(case)
+        if case.get("kind") != "bk":
+            self.last_real_res = res
+        return res
+
+    def execute(self, case):
+        # exceptions raised inside weakref callbacks (CanvasCache.cleanup) cannot propagate: Python hands them to
+        # sys.unraisablehook.  They are invisible in every render, so they are collected here and judged by the oracle.
+        import sys
+        swallowed = []
+
+        def hook(u):
+            where = getattr(u.object, "__qualname__", None) or type(u.object).__name__
+            swallowed.append(f"{type(u.exc_value).__name__} in {where}")
+        old_hook = sys.unraisablehook
+        sys.unraisablehook = hook
+        try:
+            res = run_bk(case) if case.get("kind") == "bk" else run_real(case)
+            gc.collect()
+        finally:
+            sys.unraisablehook = old_hook
+        res["unraisable"] = sorted(set(swallowed))
         return res
 
     # ---------- model wire format ----------
@@ -1230,7 +1248,7 @@ class C06(core.Check):
                 outs.append({"widgets": ws, "deps": sorted(ds), "nrefs": next(it), "r": r})
         except StopIteration:
             return {"malformed": ints[:60]}
-        return {"outs": outs, "frozen": []}
+        return {"outs": outs, "frozen": [], "unraisable": []}
 
     # ---------- generators ----------
     @staticmethod
@@ -1564,6 +1582,8 @@ class C06(core.Check):
         msgs = []
         if res.get("frozen"):
             msgs.append("a canvas handed out by an earlier render was modified afterwards")
+        if res.get("unraisable"):
+            msgs.append("exception swallowed inside the cache machinery (weakref callback): " + ", ".join(res["unraisable"]))
         if case.get("kind") == "bk":
             for k, (o, e) in enumerate(zip(res["outs"], expect_bk(case))):
                 if e is None or o["r"] == e:
@@ -1609,7 +1629,7 @@ class C06(core.Check):
         for names in combos:
             try:
                 with shim(names):
-                    res = run_bk(case) if case.get("kind") == "bk" else run_real(case)
+                    res = self.execute(case)
                 if not judge(case, res):
                     return "root cause: " + "+".join(names)
             except Exception:       # noqa: BLE001
